@@ -739,7 +739,8 @@ fn printer_universe(ctx: &mut Ctx, max_idx_15: bool) -> Vec<Term> {
         crate::props::Sizes { enum_size: 6, enum_free: 2, n_random: 3000, rand_size: 40 }
     };
     let mut uni = crate::props::universe(ctx, &sz, false);
-    uni.retain(|t| !free_vars(t).1);
+    // Display casts indices `as u32` (DESIGN §9: machine-integer wrap is outside the model): keep indices below 2^31
+    uni.retain(|t| !free_vars(t).1 && idx_range(t).map_or(true, |(_, hi)| hi < (1usize << 31)));
     // deep binders (names of 2 and 3 letters) and large free indices
     if !max_idx_15 {
         for depth in [26usize, 27, 28, 52, 702, 703, 704] {
@@ -1043,7 +1044,9 @@ pub fn c12(ctx: &mut Ctx) {
             ns.push(ctx.rng.below(cap));
         }
         if let Encoding::Binary = e {
-            ns.extend([255, 256, 1023, 1024, 65535, 65536, (1 << 31) - 1, 1 << 31, usize::MAX >> 1]);
+            // including numbers that use the top bits of usize
+            ns.extend([255, 256, 1023, 1024, 65535, 65536, (1 << 31) - 1, 1 << 31, usize::MAX >> 1, 1 << 62, 1 << 63, (1 << 63) + 1,
+                usize::MAX - 1, usize::MAX, (1 << 63) | (1 << 31), 0xAAAA_AAAA_AAAA_AAAA, 0x5555_5555_5555_5555]);
         }
         for n in ns {
             let line = format!("enc {} {}", name, n);
@@ -1101,6 +1104,17 @@ pub fn c12(ctx: &mut Ctx) {
                     }
                 }
                 None => ctx.fail("signed value is not a pair", &[line.clone()]),
+            }
+        }
+    }
+    // containers of numerals at the top of the usize range (binary only: the others would be astronomically large)
+    for a in [usize::MAX, 1usize << 63] {
+        for line in [format!("numpair binary {} 3", a), format!("numopt binary some {}", a), format!("numres binary ok {}", a), format!("numres binary err {}", a)] {
+            let r = ctx.op(&line);
+            ctx.nontrivial(&line);
+            let num = s(&into_num(Encoding::Binary, a));
+            if !r.contains(&num) || dec_binary(&into_num(Encoding::Binary, a)) != Some(a) {
+                ctx.fail("container of a large binary numeral does not hold the canonical numeral", &[line]);
             }
         }
     }
